@@ -51,6 +51,12 @@ const TABLES: &[Opaque] = &[
     Opaque { recv: "KING_NONMAGICS", method: "get_attacks", ret: "u64" },
 ];
 const CHECK: What = What::Fn { opaque: TABLES, vec_list: true, bits: true };
+const ZOBRIST: &[Opaque] = &[
+    Opaque { recv: "Zobrist", method: "BLACK_TO_MOVE_HASH", ret: "u64" },
+    Opaque { recv: "Zobrist", method: "castle_hash", ret: "u64" },
+    Opaque { recv: "Zobrist", method: "en_passant_square_hash", ret: "u64" },
+    Opaque { recv: "Zobrist", method: "piece_square_hash", ret: "u64" },
+];
 macro_rules! ps { ($n:literal) => { Target { module: "Check", file: BOARD, container: Impl("PlayerState"), name: $n, what: BITS } }; }
 macro_rules! bb { ($n:literal) => { Target { module: "Check", file: BOARD, container: Impl("Bitboard"), name: $n, what: CHECK } }; }
 
@@ -157,4 +163,26 @@ pub const TARGETS: &[Target] = &[
     Target { module: "Check", file: BOARD_LIB, container: Free, name: "opposite_color", what: BITS },
     bb!("is_white_turn"), bb!("opposite_turn"), bb!("_is_square_in_check"), bb!("_is_in_check_by_bits"),
     bb!("is_valid"), bb!("is_current_in_check"), bb!("is_in_check"),
+    // ---- incremental Zobrist update (the key tables are opaque functions) (property C06)
+    cb!("NO_SQUARE"), cb!("A8"), cb!("C8"), cb!("D8"), cb!("E8"), cb!("F8"), cb!("G8"), cb!("H8"),
+    cb!("A1"), cb!("C1"), cb!("D1"), cb!("E1"), cb!("F1"), cb!("G1"), cb!("H1"),
+    Target { module: "ZobristXor", file: BOARD, container: Impl("Bitboard"), name: "zobrist_xor", what: What::Fn { opaque: ZOBRIST, vec_list: true, bits: true } },
+    // ---- make / unmake (properties C02 / C03)
+    Target { module: "MakeUnmake", file: BOARD_CONSTS, container: Free, name: "A1_MASK", what: What::ConstB },
+    Target { module: "MakeUnmake", file: BOARD_CONSTS, container: Free, name: "D1_MASK", what: What::ConstB },
+    Target { module: "MakeUnmake", file: BOARD_CONSTS, container: Free, name: "F1_MASK", what: What::ConstB },
+    Target { module: "MakeUnmake", file: BOARD_CONSTS, container: Free, name: "H1_MASK", what: What::ConstB },
+    Target { module: "MakeUnmake", file: BOARD_CONSTS, container: Free, name: "A8_MASK", what: What::ConstB },
+    Target { module: "MakeUnmake", file: BOARD_CONSTS, container: Free, name: "D8_MASK", what: What::ConstB },
+    Target { module: "MakeUnmake", file: BOARD_CONSTS, container: Free, name: "F8_MASK", what: What::ConstB },
+    Target { module: "MakeUnmake", file: BOARD_CONSTS, container: Free, name: "H8_MASK", what: What::ConstB },
+    Target { module: "MakeUnmake", file: BOARD, container: Impl("PlayerState"), name: "occupancy_ref", what: What::PlaceFn },
+    Target { module: "MakeUnmake", file: BOARD, container: Impl("PlayerState"), name: "kings_ref", what: What::PlaceFn },
+    Target { module: "MakeUnmake", file: BOARD, container: Impl("PlayerState"), name: "rooks_ref", what: What::PlaceFn },
+    Target { module: "MakeUnmake", file: BOARD, container: Impl("PlayerState"), name: "pawns_ref", what: What::PlaceFn },
+    Target { module: "MakeUnmake", file: BOARD, container: Impl("Bitboard"), name: "get_active_and_passive_mut", what: What::MutBorrow },
+    Target { module: "MakeUnmake", file: BOARD, container: Impl("Bitboard"), name: "make_castle", what: BITS },
+    Target { module: "MakeUnmake", file: BOARD, container: Impl("Bitboard"), name: "unmake_castle", what: BITS },
+    Target { module: "MakeUnmake", file: BOARD, container: Impl("Bitboard"), name: "make", what: BITS },
+    Target { module: "MakeUnmake", file: BOARD, container: Impl("Bitboard"), name: "unmake", what: BITS },
 ];
